@@ -1576,7 +1576,7 @@ func rAttemptBeforeReport(id string) func(w *World, r *Report) {
 			eachInstr(fn, func(in ssa.Instruction) {
 				if ld, ok := in.(*ssa.UnOp); ok {
 					if _, isR := loadOfFieldNamed(ld, "Retries"); isR {
-						env[ld] = vsVal{c: constant.MakeInt64(0)}
+						env[ld] = vsVal{c: constant.MakeInt64(0), sticky: true}
 					}
 				}
 			})
@@ -1798,7 +1798,7 @@ func rRequireOrderFirst(id string) func(w *World, r *Report) {
 		eachInstr(m.fn, func(in ssa.Instruction) {
 			if ld, ok := in.(*ssa.UnOp); ok {
 				if _, isRO := loadOfFieldNamed(ld, "requireOrder"); isRO {
-					env[ld] = vsVal{c: constant.MakeBool(true)}
+					env[ld] = vsVal{c: constant.MakeBool(true), sticky: true}
 				}
 			}
 		})
@@ -2100,3 +2100,452 @@ func rEveryDependencyAnEdge(id string) func(w *World, r *Report) {
 }
 
 func init() { addRules("C16", rEveryDependencyAnEdge("R16.24")) }
+
+// ------------------------------------------------------------------ round 12
+
+// rSaveArgsUntouched (R01.25 / R02.20 / R12.15): Save reads its argument list, it does not rewrite it: no store into an
+// element of the parameter slice (nor of a re-slice of it). `a[i] = strings.TrimSpace(e)` at the top of Save changes
+// every value that every kind stores afterwards - and the caller's slice with it.
+func rSaveArgsUntouched(id string) func(w *World, r *Report) {
+	return func(w *World, r *Report) {
+		ru := r.Rule(id, "the values stored are the texts given: Save (and what it calls in its package) stores nothing into the elements of its argument list", 0)
+		fn := w.Fn(nSave)
+		if fn == nil || len(fn.Params) < 2 {
+			ru.Undecided("anchor", "-", "Save not found")
+			return
+		}
+		a := fn.Params[1]
+		n := 0
+		eachInstr(fn, func(in ssa.Instruction) {
+			st, ok := in.(*ssa.Store)
+			if !ok {
+				return
+			}
+			ia, ok := st.Addr.(*ssa.IndexAddr)
+			if !ok {
+				return
+			}
+			for _, o := range sliceOrigins(ia.X, map[ssa.Value]bool{}) {
+				if o == ssa.Value(a) {
+					n++
+					ru.Bad("Save/arguments-untouched", w.IPos(st), "Save overwrites an element of its argument list before using it: every kind then stores the rewritten text, not the one given (and the caller's slice changes)")
+				}
+			}
+		})
+		if n == 0 {
+			ru.OK("Save/arguments-untouched", w.Pos(fn.Pos()), "no store into the argument list")
+		}
+	}
+}
+
+// rLookaheadKinds (R01.26 / R02.21): the well-formedness test of the greedy look-ahead exists for the kinds that take
+// several values: for the scalar optional kinds a following non-option token is the option's value, and an ill-formed
+// one is Save's conversion error - never silently left in place. With OptType fixed at each optional kind, no strconv
+// conversion of the peeked token is reachable in the parser.
+func rLookaheadKinds(id string) func(w *World, r *Report) {
+	return func(w *World, r *Report) {
+		ru := r.Rule(id, "an optional-value option takes the next non-option token whatever it looks like (ill-formed text is then a conversion error): with the kind fixed at IntOptionalType / Float64OptionalType / StringOptionalType no strconv test of the peeked token is reachable in the parser", 3)
+		m := parserOrFail(w, ru)
+		if m == nil {
+			return
+		}
+		var loads []ssa.Value
+		eachInstr(m.fn, func(in ssa.Instruction) {
+			if ld, ok := in.(*ssa.UnOp); ok {
+				if _, isK := loadOfFieldNamed(ld, "OptType"); isK {
+					loads = append(loads, ld)
+				}
+			}
+		})
+		for _, k := range []string{"IntOptionalType", "Float64OptionalType", "StringOptionalType"} {
+			kc, _ := w.Obj("option", k).(*types.Const)
+			if kc == nil {
+				ru.Undecided("look-ahead/"+k, "-", "kind constant not found")
+				continue
+			}
+			env := triEnv{}
+			for _, l := range loads {
+				env[l] = vsVal{c: kc.Val(), sticky: true}
+			}
+			seen, ok := m.ig.reachVSInit([]int{0}, nil, m.normalEdgeOK, env)
+			if !ok {
+				ru.Undecided("look-ahead/"+k, w.Pos(m.fn.Pos()), "path search exhausted")
+				continue
+			}
+			bad := ""
+			for i, sn := range seen {
+				if c, isCall := m.ig.instrs[i].(*ssa.Call); isCall && sn && strings.HasPrefix(calleeName(c), "strconv.") {
+					bad = w.IPos(c)
+				}
+			}
+			ru.Check(bad == "", "look-ahead/"+k, w.Pos(m.fn.Pos()), "no well-formedness test for this kind", "for an option of kind "+k+" the parser tests the following token with strconv (at "+bad+") and leaves it in place when the test fails: `--opt text` keeps the default without an error, and `text` becomes an argument")
+		}
+	}
+}
+
+// rArgsOnlyNonEmpty (R02.22 / R07.17 / R01.27): outside the single-dash arm the tokeniser attaches a value only when
+// there is one: every store of a pair's Args is dominated by `<the text stored> != ""`. Testing the raw group
+// (`match[3] != ""`) instead stores an empty value for `--opt=`: a multi-value option then counts "" as its first
+// value, a numeric one fails to convert it.
+func rArgsOnlyNonEmpty(id string) func(w *World, r *Report) {
+	return func(w *World, r *Report) {
+		ru := r.Rule(id, "`--opt=` attaches nothing: in the tokeniser a pair's Args is stored only under `text != \"\"` for the very text that is stored (the group with its one leading separator removed)", 3)
+		fn := w.Fn(nIsOption)
+		if fn == nil {
+			ru.Undecided("anchor", "-", "isOption not found")
+			return
+		}
+		n := 0
+		eachInstr(fn, func(in ssa.Instruction) {
+			st, ok := in.(*ssa.Store)
+			if !ok {
+				return
+			}
+			fa, ok := st.Addr.(*ssa.FieldAddr)
+			if !ok || fieldOfAddr(fa).Name() != "Args" {
+				return
+			}
+			els, _, _ := elementsOf(st.Val, map[ssa.Value]bool{})
+			if len(els) != 1 {
+				return
+			}
+			e := els[0]
+			if bo, isCat := e.(*ssa.BinOp); isCat && bo.Op == token.ADD {
+				return // the single-dash value (rest of the runes + attached text): guarded by lengths, see R07.5
+			}
+			n++
+			good := false
+			for _, f := range factsAt(st.Block()) {
+				if f.Op == token.NEQ && f.Y != nil {
+					if s, ok := constString(f.Y); ok && s == "" && (f.X == e || sameLeaves(f.X, e)) {
+						good = true
+					}
+				}
+				// len(text) > 0 / != 0
+				if c, ok := lenOf(f.X); ok && f.Y != nil && (c == e || sameLeaves(c, e)) {
+					if k, ok := constInt(f.Y); ok && ((f.Op == token.GTR && k == 0) || (f.Op == token.NEQ && k == 0) || (f.Op == token.GEQ && k == 1)) {
+						good = true
+					}
+				}
+			}
+			ru.Check(good, "Args/non-empty", w.IPos(st), "stored only when the text is not empty", "a pair's Args is stored without `text != \"\"` on the text that is stored: `--opt=` attaches an empty value (the option counts it as given, a following value is no longer taken)")
+		})
+		if n == 0 {
+			ru.Bad("Args/non-empty", w.Pos(fn.Pos()), "the tokeniser never attaches a value")
+		}
+	}
+}
+
+// sameLeaves: a and b are merges over the same set of leaf values.
+func sameLeaves(a, b ssa.Value) bool {
+	la, lb := phiLeaves(a, map[ssa.Value]bool{}), phiLeaves(b, map[ssa.Value]bool{})
+	if len(la) == 0 || len(la) != len(lb) {
+		return false
+	}
+	set := map[ssa.Value]bool{}
+	for _, v := range la {
+		set[v] = true
+	}
+	for _, v := range lb {
+		if !set[v] {
+			return false
+		}
+	}
+	return true
+}
+
+// rTaskNotCopied (R15.12): the lock that keeps a shared Task from running twice at the same time lives in the Task
+// value: a Task is created by NewTask only and never copied - no other function builds a Task value or loads one
+// through a pointer (`*t`), which would give the copy a lock of its own.
+func rTaskNotCopied(id string) func(w *World, r *Report) {
+	return func(w *World, r *Report) {
+		ru := r.Rule(id, "one Task, one lock: Task values are built by NewTask alone and never copied (no composite literal or new(Task) elsewhere, no load of a whole Task through a pointer)", 1)
+		n := 0
+		for _, fn := range w.Funcs {
+			if fn.Pkg == nil || shortName(fn.Pkg.Pkg.Path()) != "dag" {
+				continue
+			}
+			isCtor := short(fn) == "dag.NewTask"
+			eachInstr(fn, func(in ssa.Instruction) {
+				switch x := in.(type) {
+				case *ssa.Alloc:
+					if typeString(derefType(x.Type())) == "dag.Task" {
+						n++
+						// a placeholder without a function (what Graph.Task answers for an unknown ID) duplicates nothing
+						placeholder := true
+						if x.Referrers() != nil {
+							for _, r := range *x.Referrers() {
+								if fa, ok := r.(*ssa.FieldAddr); ok && fieldOfAddr(fa).Name() == "Fn" && fa.Referrers() != nil {
+									for _, r2 := range *fa.Referrers() {
+										if st, ok := r2.(*ssa.Store); ok && !isNilConst(st.Val) {
+											placeholder = false
+										}
+									}
+								}
+								if st, ok := r.(*ssa.Store); ok && st.Addr == ssa.Value(x) {
+									placeholder = false // a whole value stored into it
+								}
+							}
+						}
+						if placeholder && !isCtor {
+							ru.Present("Task/placeholder/"+short(fn), w.IPos(x), "a Task without a function (nothing to run, nothing to exclude)")
+							return
+						}
+						ru.Check(isCtor, "Task/built/"+short(fn), w.IPos(x), "built by NewTask", "a Task value is built outside NewTask (in "+short(fn)+"): it has a lock of its own, so the task it duplicates can run in two graphs at the same time")
+					}
+				case *ssa.UnOp:
+					if x.Op == token.MUL && typeString(x.Type()) == "dag.Task" {
+						n++
+						ru.Bad("Task/copied/"+short(fn), w.IPos(x), "a whole Task is loaded through a pointer (copied, lock included): the copy no longer excludes the original")
+					}
+				}
+			})
+		}
+		if n == 0 {
+			ru.Bad("Task/built", "-", "no Task constructor found")
+		}
+	}
+}
+
+// rFlushEveryAttempt (R15.13): with output buffering on, what an attempt wrote reaches the writer before the
+// goroutine moves on: from the return of Task.Fn, with g.bufferOutput set, every path passes the flush (the read of
+// Graph.bufferWriter) before the next attempt or the completion message. A `break` placed between the call and the
+// flush (do not retry after ErrorSkipParents) loses that attempt's output.
+func rFlushEveryAttempt(id string) func(w *World, r *Report) {
+	return func(w *World, r *Report) {
+		ru := r.Rule(id, "every attempt's output is written: with bufferOutput set, from the return of Task.Fn every path reads Graph.bufferWriter (the flush) before the call is reached again or the completion message is sent", 1)
+		calls := taskFnCalls(w)
+		if len(calls) == 0 {
+			ru.Undecided("call-sites", "-", "no Task.Fn call site in package dag")
+			return
+		}
+		for _, c := range calls {
+			fn := c.Parent()
+			ig := buildIG(fn)
+			env := triEnv{}
+			eachInstr(fn, func(in ssa.Instruction) {
+				if ld, ok := in.(*ssa.UnOp); ok {
+					if _, isB := loadOfFieldNamed(ld, "bufferOutput"); isB {
+						env[ld] = vsVal{c: constant.MakeBool(true), sticky: true}
+					}
+				}
+			})
+			stop := func(in ssa.Instruction) bool {
+				ld, ok := in.(*ssa.UnOp)
+				if !ok {
+					return false
+				}
+				_, isBW := loadOfFieldNamed(ld, "bufferWriter")
+				return isBW
+			}
+			seen, ok := ig.reachVSInit(ig.after(c), stop, nil, env)
+			if !ok {
+				seen = ig.reachFromE(ig.after(c), stop, nil)
+			}
+			bad := ""
+			for i, sn := range seen {
+				if !sn {
+					continue
+				}
+				in := ig.instrs[i]
+				if in == ssa.Instruction(c) {
+					bad = "the next attempt"
+				}
+				if snd, isSend := in.(*ssa.Send); isSend && isCompletionChan(snd.Chan.Type()) {
+					bad = "the completion message at " + w.IPos(in)
+				}
+			}
+			ru.Check(bad == "", "attempt/flushed", w.IPos(c), "flushed before the next attempt and before the report", "with output buffering on, "+bad+" can be reached from the task's return without the buffered output having been written: that attempt's output never reaches the writer")
+		}
+	}
+}
+
+// rDefaultShown (R18.20): the default shown by the help is the default: option.New renders it with the plain verbs
+// (%s between quotes, %d, %f, %t, %v); a verb that re-encodes the value (%q doubles backslashes, %x, %U) shows something
+// the option does not hold.
+func rDefaultShown(id string) func(w *World, r *Report) {
+	return func(w *World, r *Report) {
+		ru := r.Rule(id, "help shows the real default: every format that option.New uses to render DefaultStr consists of the verbs %s %d %f %t %v only", 0)
+		fn := w.Fn("option.New")
+		if fn == nil {
+			ru.Undecided("anchor", "-", "option.New not found")
+			return
+		}
+		n := 0
+		eachInstr(fn, func(in ssa.Instruction) {
+			st, ok := in.(*ssa.Store)
+			if !ok {
+				return
+			}
+			fa, ok := st.Addr.(*ssa.FieldAddr)
+			if !ok || fieldOfAddr(fa).Name() != "DefaultStr" {
+				return
+			}
+			for _, leaf := range phiLeaves(st.Val, map[ssa.Value]bool{}) {
+				c, ok := leaf.(*ssa.Call)
+				if !ok || calleeName(c) != "fmt.Sprintf" {
+					continue
+				}
+				n++
+				f, isConst := constString(c.Call.Args[0])
+				bad := ""
+				if isConst {
+					for i := 0; i+1 < len(f); i++ {
+						if f[i] != '%' {
+							continue
+						}
+						j := i + 1
+						for j < len(f) && strings.ContainsRune("+-# 0123456789.", rune(f[j])) {
+							j++
+						}
+						if j < len(f) && f[j] != '%' && !strings.ContainsRune("sdftv", rune(f[j])) {
+							bad = f[i : j+1]
+						}
+						if j < len(f) && f[i+1:j] != "" && strings.ContainsRune("sv", rune(f[j])) && strings.Contains(f[i+1:j], "#") {
+							bad = f[i : j+1]
+						}
+						i = j
+					}
+				}
+				ru.Check(isConst && bad == "", "DefaultStr/format", w.IPos(c), "plain verbs", "option.New renders the default with "+bad+": the help shows a re-encoded text (doubled backslashes, escapes), not the default the option holds")
+			}
+		})
+		if n == 0 {
+			ru.Present("DefaultStr/format", w.Pos(fn.Pos()), "no formatted default (defaults rendered otherwise)")
+		}
+	}
+}
+
+// rEveryCommandDescends (R18.21 / R10.21 / R11.24): a plain token that is the name of a child command selects that
+// child - the help command included, whatever else the node has. In the parser the descent (cursor = child) is reached
+// from the command scan's match without a further condition on the node (the number of its commands, the name being
+// the help command's).
+func rEveryCommandDescends(id string) func(w *World, r *Report) {
+	return func(w *World, r *Report) {
+		ru := r.Rule(id, "`<path> help` asks for help at every level: in the parser's scan over the node's commands nothing but the comparison of the name with the token stands between a command and the descent into it", 1)
+		m := parserOrFail(w, ru)
+		if m == nil {
+			return
+		}
+		n := 0
+		for _, mv := range m.cursorMoves() {
+			n++
+			b := mv.pred
+			// the loop over ChildCommands that contains the move
+			var hdr *ssa.BasicBlock
+			for _, h := range loopHeaders(m.fn) {
+				if naturalLoop(h)[b] || h.Dominates(b) {
+					for _, in := range h.Instrs {
+						if nx, ok := in.(*ssa.Next); ok {
+							if rg, ok := nx.Iter.(*ssa.Range); ok {
+								if _, isCC := loadOfFieldNamed(rg.X, "ChildCommands"); isCC && (hdr == nil || hdr.Dominates(h)) {
+									hdr = h
+								}
+							}
+						}
+					}
+				}
+			}
+			if hdr == nil {
+				ru.Present("descent/every-command/lookup", w.IPos(mv.pred.Instrs[len(mv.pred.Instrs)-1]), "the command is looked up by name: no scan, nothing to skip")
+				continue
+			}
+			bad := ""
+			// every iteration of the scan compares the name with the token: no path from the loop body back to the
+			// header avoids that test
+			{
+				loop := naturalLoop(hdr)
+				var nameTests []ssa.Instruction
+				for lb := range loop {
+					if iff, ok := lb.Instrs[len(lb.Instrs)-1].(*ssa.If); ok && lb != hdr {
+						for _, f := range condFactsRaw(iff.Cond, true, iff) {
+							for _, v := range []ssa.Value{f.X, f.Y} {
+								if c, ok := v.(*ssa.Call); ok && m.iterCall(c, nIterValue) {
+									nameTests = append(nameTests, iff)
+								}
+							}
+						}
+					}
+				}
+				if len(nameTests) > 0 {
+					var starts []int
+					for _, sc := range hdr.Succs {
+						if loop[sc] {
+							starts = append(starts, m.ig.first[sc])
+						}
+					}
+					isTest := func(in ssa.Instruction) bool {
+						for _, t := range nameTests {
+							if t == in {
+								return true
+							}
+						}
+						return false
+					}
+					seen := m.ig.reachFromE(starts, isTest, m.normalEdgeOK)
+					if seen[m.ig.first[hdr]] {
+						bad = w.IPos(hdr.Instrs[len(hdr.Instrs)-1]) + " (an iteration can end before the name is compared)"
+					}
+				}
+			}
+			for _, f := range factsAt(b) {
+				if f.If == nil || !hdr.Dominates(f.If.Block()) || f.If.Block() == hdr {
+					continue
+				}
+				// the name test: key (or the child's Name) compared with the token
+				isName := false
+				for _, v := range []ssa.Value{f.X, f.Y} {
+					if v == nil {
+						continue
+					}
+					if c, ok := v.(*ssa.Call); ok && m.iterCall(c, nIterValue) {
+						isName = true
+					}
+				}
+				if f.Y != nil && (f.Op == token.EQL) && isName {
+					continue
+				}
+				if m.normalModePrune(f.If.Block(), 0) || m.normalModePrune(f.If.Block(), 1) {
+					continue // completion-only
+				}
+				bad = w.IPos(f.If)
+			}
+			ru.Check(bad == "", "descent/every-command", w.IPos(mv.pred.Instrs[len(mv.pred.Instrs)-1]), "only the name decides", "a child command whose name equals the token is skipped under a further condition (at "+bad+"): at levels where it holds, `help` (or another command) becomes a plain argument")
+		}
+		if n == 0 {
+			ru.Undecided("descent/every-command", w.Pos(m.fn.Pos()), "no command descent found")
+		}
+	}
+}
+
+func init() {
+	for prop, id := range map[string]string{"C01": "R01.25", "C02": "R02.20", "C12": "R12.15"} {
+		addRules(prop, rSaveArgsUntouched(id))
+	}
+	for prop, id := range map[string]string{"C01": "R01.26", "C02": "R02.21"} {
+		addRules(prop, rLookaheadKinds(id))
+	}
+	for prop, id := range map[string]string{"C02": "R02.22", "C07": "R07.17", "C01": "R01.27"} {
+		addRules(prop, rArgsOnlyNonEmpty(id))
+	}
+	addRules("C15", rTaskNotCopied("R15.12"), rFlushEveryAttempt("R15.13"))
+	addRules("C18", rDefaultShown("R18.20"))
+	for prop, id := range map[string]string{"C18": "R18.21", "C10": "R10.21", "C11": "R11.24"} {
+		addRules(prop, rEveryCommandDescends(id))
+	}
+	addRules("C03", func(w *World, r *Report) {
+		subRule(w, r, rC02Lookahead, "R03.23", "a value list ends where the next option begins: what follows is interpreted, not swallowed (same obligations as C02 R02.2)", 3)
+	}, func(w *World, r *Report) {
+		subRule(w, r, rC08Policy, "R03.24", "an unknown option is reported or passed on, never dropped: no success return of Parse bypasses the policy loop (same obligations as C08 R08.2)", 3)
+	})
+	addRules("C09", rSplitterRejects("R09.15"))
+	addRules("C10", func(w *World, r *Report) {
+		subRule(w, r, rC01TypedStore, "R10.20", "the values the command function sees are the values typed: decimal conversion, nothing stored on the error path (same obligations as C01 R01.4)", 8)
+	})
+	addRules("C11", func(w *World, r *Report) {
+		subRule(w, r, rC07ModeFlow, "R11.23", "`--hel` is a help request in every mode: the mode reaches only the tokeniser, never the matcher (same obligations as C07 R07.1)", 4)
+	})
+	addRules("C16", func(w *World, r *Report) {
+		subRule(w, r, rC13RetriesPerVertex, "R16.25", "declaring a retry budget declares the task: TaskRetries registers the vertex and stores the count whatever its value (same obligations as C13 R13.9)", 2)
+	})
+}
